@@ -319,6 +319,7 @@ fn harness_apsp(dg: &Dgi, u: usize, v: usize) -> (x: isize)
 {
     let mut fw = FloydWarshall::new(dg);
     let r = fw.distances();
+    proof { lemma_cell_bound(u as int, v as int, r.order as int); }   // the cell number u * order + v is computable
     *r.index_pair((u, v))
 }
 
